@@ -121,7 +121,21 @@ fn next_down(x: f64) -> f64 {
 }
 
 fn gen_ctor(rng: &mut Rng, len: usize) -> Ctor {
-    match rng.below(10) {
+    match rng.below(11) {
+        10 => {
+            // bins of subnormal width: edges are small multiples of 2^-1074, either sign of
+            // zero, sometimes one ordinary value at the top
+            let mut k: Vec<i64> = (0..=len).map(|_| rng.below(2 * len as u64 + 4) as i64 - (len as i64) / 2).collect();
+            k.sort();
+            let mut e: Vec<f64> = k.iter().map(|&k| if k == 0 && rng.chance(0.5) { -0.0 } else { k as f64 * f64::from_bits(1) }).collect();
+            if rng.chance(0.3) {
+                e[len] = 1.0;
+            }
+            if rng.chance(0.3) {
+                return Ctor::ConstWidth(e[0].to_bits(), f64::from_bits(1).max(e[0] + (len as f64) * f64::from_bits(1 + rng.below(3))).to_bits());
+            }
+            Ctor::Ranges(e.iter().map(|x| x.to_bits()).collect())
+        }
         0..=4 => {
             // sorted lattice multiset with repeats
             let mut e: Vec<f64> = (0..=len).map(|_| LATTICE[rng.usize(LATTICE.len())]).collect();
@@ -603,7 +617,9 @@ impl HScenario {
                                 return Err(Viol::new("Histogram:serialize_modifies", format!("op {}: serialising changed the histogram", oi)));
                             }
                         }
-                        match cur.from_json_same(&json) {
+                        let blob = cur.to_blob(crate::medium::pick(&json));
+                        st.bump(crate::medium::key_of_blob(&blob));
+                        match cur.from_json_same(&blob) {
                             Ok(h) => {
                                 if matches!(prop, HProp::C18) {
                                     if h.debug() != dbg || h.bins() != cur.bins() || !h.ranges().iter().zip(cur.ranges().iter()).all(|(a, b)| same_bits(*a, *b)) {
@@ -617,7 +633,10 @@ impl HScenario {
                             }
                             Err(e) => {
                                 if matches!(prop, HProp::C18) {
-                                    return Err(Viol::new("Histogram:restore_parse", format!("op {}: {} json={}", oi, e, json)));
+                                    return Err(Viol::new(
+                                        "Histogram:restore_parse",
+                                        format!("op {}: medium {}: {} json={}", oi, crate::medium::name_of_blob(&blob), e, json),
+                                    ));
                                 }
                                 skipped = true;
                                 break;
@@ -840,6 +859,11 @@ fn views_oracle(oi: usize, h: &dyn Hist, m: &Model, st: &mut Stats) -> Result<()
     if cnt_items != len || last != items.last().copied() {
         return Err(Viol::new("Histogram:iter_adaptors", format!("after op {}: iter().count() = {}, last() = {:?}", oi, cnt_items, last)));
     }
+    if oi % 4 == 0 {
+        if let Err(e) = h.iter_protocol(oi, k) {
+            return Err(Viol::new("Histogram:iter_adaptors", format!("after op {}: {}", oi, e)));
+        }
+    }
     let w = h.widths();
     let c = h.centers();
     let nb = h.normalized_bins();
@@ -912,6 +936,16 @@ fn variance_range_oracle(oi: usize, h: &dyn Hist, m: &Model, st: &mut Stats) -> 
                     format!("Histogram:{}:outside_range", name),
                     format!("after op {}: {}({}) = {:e} outside [0, total/4 = {:e}] (count {}, total {})", oi, name, i, v, t / 4.0, m.counts[i], total),
                 ));
+            }
+        }
+    }
+    // the same values reached through the iterator adaptors
+    let i = oi % m.counts.len();
+    for (name, v) in h.variances_via(i) {
+        if let Some(v) = v {
+            let slack = 8.0 * U * (m.counts.iter().copied().max().unwrap_or(1) as f64).max(1.0);
+            if !(v >= -slack && v <= t / 4.0 * (1.0 + 4.0 * U) + slack) {
+                return Err(Viol::new("Histogram:variances:outside_range", format!("after op {}: {} = {:e} (i = {}) outside [0, total/4 = {:e}]", oi, name, v, i, t / 4.0)));
             }
         }
     }
